@@ -289,6 +289,7 @@ theorem insertAfterTail_core {f : Forest} {c : Nat} {t : HTree} {q : Nat} {vq : 
 theorem insertAfterTail_far {f : Forest} {c : Nat} {t : HTree} {q : Nat} {vq : Value} {A : List HTree}
     {kr : HTree} {B : List HTree} {X Y : Forest} {φ : HTree → HTree} (inv : f.Inv) (norm : f.Normal)
     (F : Far f (Keep.resident c) c t q vq (A ++ kr :: B) X Y φ) (sq : SiteAt f q vq (A ++ kr :: B))
+    (hxs : ∃ φ', KidMap φ' ∧ SiteAt X q vq ((A ++ kr :: B).map φ'))
     (hgc : f.get? c = some t) (hX : X = f ∨ textData t = none) (hrc : kr.handle ≠ c)
     (hkrn : kr.value.isNormal = true) (hq : q ∉ handles t)
     (hsame : ¬ nextOf B kr = some c)
@@ -296,7 +297,7 @@ theorem insertAfterTail_far {f : Forest} {c : Nat} {t : HTree} {q : Nat} {vq : V
     (insertAfterTail X kr.handle c).1 = specMove (Keep.resident c) (.after kr.handle) c f := by
   have hplace : (X.checkedInsertAfter kr.handle c) =
       (Y.editAt (some q) (insertAfterTop kr.handle t), true) := by
-    obtain ⟨φ', hk', _, sXq⟩ := F.xsite
+    obtain ⟨φ', hk', sXq⟩ := hxs
     have hm : (A ++ kr :: B).map φ' = A.map φ' ++ φ' kr :: B.map φ' := by simp
     rw [hm] at sXq
     have := Forest.checkedInsertAfter_ok F.xget sXq hq (by rw [hk'.handle]; exact hrc)
@@ -446,7 +447,8 @@ theorem insertAfter_spec_far {f : Forest} {ref c : Nat} (inv : f.Inv) (norm : f.
       rw [Forest.prevSibling_of_no_ctx hno, Forest.nextSibling_of_no_ctx hno,
         Forest.removeConsolidate_none_left]
       simp only [Bool.false_and, Bool.false_eq_true, if_false]
-      exact insertAfterTail_far inv norm (far_root hgc hno sq hqt) sq hgc (Or.inl rfl) hrc hkrn hqt hsame hocc
+      exact insertAfterTail_far inv norm (far_root hgc hno sq hqt) sq ⟨id, kidMap_id, by rw [List.map_id]; exact sq⟩
+        hgc (Or.inl rfl) hrc hkrn hqt hsame hocc
     · obtain ⟨e0, vo, so⟩ := SiteAt.of_ctx nd hctx
       have hself : cx.self = t := by
         have := Forest.get?_of_ctx nd hctx
@@ -483,8 +485,8 @@ theorem insertAfter_spec_far {f : Forest} {ref c : Nat} (inv : f.Inv) (norm : f.
           | true => exact absurd (by simpa using h) hnr
         rw [this]; simp
       rw [href]
-      obtain ⟨φ, F⟩ := far_kid (keep := Keep.resident k.handle) inv norm (Keep.resident_spec k.handle)
+      obtain ⟨⟨φ, F⟩, hxs⟩ := far_kid (keep := Keep.resident k.handle) inv norm (Keep.resident_spec k.handle)
         so sq hpo hqt hvq
-      exact insertAfterTail_far inv norm F sq hgc (old_stage inv norm so).same_or_not_text hrc hkrn hqt hsame hocc
+      exact insertAfterTail_far inv norm F sq hxs hgc (old_stage inv norm so).same_or_not_text hrc hkrn hqt hsame hocc
 
 end XotModel
